@@ -393,7 +393,8 @@ def run_job(ctx, ws, B, job, with_cli):
             macros = [ws.dir]
         elif fault == "macro-file-garbled":
             macros = [ws.write("bad_macros.yaml", "macros:\n  - name: '@two_push'\n    pattern: [unclosed\n")]
-    key = "undefined_macro_without_definitions" if fault == "undefined-macro-no-definitions" else None
+    # the open finding is "no macro defined ANYWHERE": with an extra macro file in play the expander runs and must report the name
+    key = "undefined_macro_without_definitions" if fault == "undefined-macro-no-definitions" and not macros else None
     judge_api(ctx, ws, fault, base, rule_path, inp, macros, envfn, key)
     cli_ok = with_cli and not fault.startswith("open-failpoint") and fault != "subprocess-run-OSError"
     if cli_ok:
